@@ -115,7 +115,7 @@ record by record) — for a record of columns: the columns computed from its own
 `Assign.iterate` zips the `j`-th batch that leaves the `rebatched_args(…, batch_size)` generator with the
 `j`-th incoming record (`Impl.pwi` over `Impl.rebatchGen`), which is that reference exactly when the
 re-batcher does not move rows between batches.  Vocabulary (`Lemmas/PipeAligned.lean`):
-* `callOuts op s src` — the normalised results of the calls, record by record, up to the first error;
+* `Ref.callOuts op s src` — the normalised results of the calls, record by record, up to the first error;
 * `AlignedCalls ignore b nc results` — every result is a batch of `nc` `list` / `tuple` columns of exactly
   `b` rows, the LAST of a stream that ends normally `1..b`; the error the stream breaks off with (if any)
   ends the run (with skipping on: it is not skippable — a skipped failing call is finding F5);
@@ -848,7 +848,7 @@ example :
     (Impl.run true [exAssignB] exAlignedSrc).err = none := by decide +kernel
 
 /-- the hypothesis fails on the stream of the open finding (one batch of 3 rows, `batch_size = 2`) -/
-example : alignedCallsB false 2 1 (callOuts exAssignB 0
+example : Ref.alignedCallsB false 2 1 (Ref.callOuts exAssignB 0
     [.ok (.dict [("v", .list [.int 0, .int 10, .int 20])])]) = false := by decide +kernel
 
 /-! ### the heap-aware theorem is not true by construction -/
